@@ -7,10 +7,9 @@ template <size_t RA, size_t RB> constexpr size_t RMAX = (RA > RB ? RA : RB);
 template <size_t RA, size_t RB> constexpr size_t RMIN = (RA < RB ? RA : RB);
 
 // per-axis compatibility, right aligned: axis i counts from the back
-template <size_t I, class A, class B>
+template <size_t I, size_t RA, size_t RB, class A, class B>
 __attribute__((always_inline)) inline bool compat_axis(const A& a, const B& b)
 {
-    constexpr size_t RA = rank_v<A>, RB = rank_v<B>;
     size_t x = rd<RA-1-I>(a), y = rd<RB-1-I>(b);
     return x==y || x==1 || y==1;
 }
@@ -36,7 +35,7 @@ __attribute__((always_inline)) inline void chain(const mk_t<K,size_t,RA>& a, con
             });
         }
     } else {
-        if (!compat_axis<I>(a,b)) {
+        if (!compat_axis<I,RA,RB>(a,b)) {
             // first incompatible pair at aligned axis I: NumPy raises -> must be Nothing
             auto r = ix::broadcast_shape(a,b);
             OBLIGE("C06.bshape.sound|C15.bshape.nothing_when_incompatible", !static_cast<bool>(r), kid<K>, RA, RB, I);
@@ -48,12 +47,14 @@ __attribute__((always_inline)) inline void chain(const mk_t<K,size_t,RA>& a, con
 template <class K, size_t RA, size_t RB>
 void ob_c06_bshape(const mk_t<K,size_t,RA>& a, const mk_t<K,size_t,RB>& b)
 {
+    assume_len<RA>(a); assume_len<RB>(b);
     chain<K,RA,RB,0>(a,b);
 }
 // idempotence: bs(a,a) == a ; None is neutral
 template <class K, size_t R>
 void ob_c06_idem(const mk_t<K,size_t,R>& a)
 {
+    assume_len<R>(a);
     {
         auto r = ix::broadcast_shape(a,a);
         OBLIGE("C06.idem.value", static_cast<bool>(r), kid<K>, R);
@@ -75,6 +76,7 @@ void ob_c06_idem(const mk_t<K,size_t,R>& a)
 template <class K, size_t RA, size_t RB, size_t RC>
 void ob_c06_bshape3(const mk_t<K,size_t,RA>& a, const mk_t<K,size_t,RB>& b, const mk_t<K,size_t,RC>& c)
 {
+    assume_len<RA>(a); assume_len<RB>(b); assume_len<RC>(c);
     constexpr size_t R = RMAX<RMAX<RA,RB>,RC>;
     auto ab = ix::broadcast_shape(a,b);
     if (ab) {
@@ -102,6 +104,7 @@ void ob_c06_negctl(const mk_t<K,size_t,2>& a, const mk_t<K,size_t,2>& b)
 #define INSTK(K) INST(K,1,1) INST(K,1,2) INST(K,2,1) INST(K,2,2) INST(K,1,3) INST(K,3,1) INST(K,2,3) INST(K,3,2) INST(K,3,3) \
    template void ob_c06_idem<K,1>(const mk_t<K,size_t,1>&); template void ob_c06_idem<K,2>(const mk_t<K,size_t,2>&); template void ob_c06_idem<K,3>(const mk_t<K,size_t,3>&);
 INSTK(k_std) INSTK(k_utl)
+// (bounded run-time-length kinds do not discharge here: the result is a hybrid_ndarray whose length is re-read through a struct copy in every iteration)
 template void ob_c06_bshape3<k_std,2,2,2>(const mk_t<k_std,size_t,2>&, const mk_t<k_std,size_t,2>&, const mk_t<k_std,size_t,2>&);
 template void ob_c06_bshape3<k_std,1,2,3>(const mk_t<k_std,size_t,1>&, const mk_t<k_std,size_t,2>&, const mk_t<k_std,size_t,3>&);
 template void ob_c06_negctl<k_std>(const mk_t<k_std,size_t,2>&, const mk_t<k_std,size_t,2>&);
